@@ -90,6 +90,11 @@ func (g *gen) genMap(typ *types.Map) error {
 	p.P("// Deprecated: In favour of generics.")
 	p.P("func %s(union, that map[%s]struct{}) map[%s]struct{} {", name, typeStr, typeStr)
 	p.In()
+	p.P("if union == nil {")
+	p.In()
+	p.P("union = make(map[%s]struct{}, len(that))", typeStr)
+	p.Out()
+	p.P("}")
 	p.P("for k := range that {")
 	p.In()
 	p.P("union[k] = struct{}{}")
